@@ -213,88 +213,103 @@ def run(tier, seed):
     t = C.Timer()
     sim_env()
     binary = C.require_build("parsesim")
-    refs = Refs(binary)
     n_runs = budget(tier)
     base = C.mix(seed, C.tag("C18"))
     distinct = set()
     totals = {}
     evaluations = 0
     ops_total = 0
-    failing = {}  # (class, subject) -> (run seed, count)
+    failing = {}  # (variant, class, subject) -> [run seed, count]
     samples = []
     crashed = []
-    for start in range(0, n_runs, CHUNK):
-        seeds = [C.mix(base, r) for r in range(start, min(n_runs, start + CHUNK))]
-        res = fanout(binary, [["exec", "--seed", str(s)] for s in seeds], "runs")
-        parsed = []
-        keys = set()
-        for (i, code, lines) in res:
-            ops, viols, probes, err = parse_run(lines)
-            if code != 0:
-                # the runner died (abort, signal) in the middle of a history; panics are caught per operation, so this
-                # is memory corruption or an abort. It is judged below: a violation only if every operation of the
-                # history survives alone in a fresh process and the crash reproduces.
-                crashed.append((seeds[i], code, lines[-15:]))
-                continue
-            parsed.append((seeds[i], ops, viols, probes))
-            for o in ops:
-                keys.add(o[5])
-        refs.ensure(keys)
-        for (rs, ops, viols, probes) in parsed:
-            evaluations += 1
-            ops_total += len(ops)
-            for k, v in probes.items():
-                totals[k] = totals.get(k, 0) + v
-            for (oid, oh, ok, prefix, nt, key, _sem) in ops:
-                if nt:
-                    distinct.add(hash((prefix, key)))
-                if refs.map[key] != oh:
-                    f = failing.setdefault(("history-dependent-result", key), [rs, 0])
+    phases = [("default", binary, Refs(binary), n_runs)]
+    if tier == "thorough":
+        # the eq/hash/clone code of node types that only other option sets generate (RepeatMinMax and RepOnce nodes of
+        # the raw-AST path, un-boxed rule structs) is reached by running the same history search on two more variants
+        from . import c20
+        vbins, vfailed = c20.build_variants(["noopt", "allon"])
+        if vfailed:
+            raise C.HarnessError("variant(s) %s do not build; C20 judges that, C18 cannot run on them" % sorted(vfailed))
+        for vn in ("noopt", "allon"):
+            phases.append((vn, vbins[vn], Refs(vbins[vn]), n_runs // 4))
+    env_of = {v: (b, r) for (v, b, r, _) in phases}
+    for (variant, vbin, refs, n_phase) in phases:
+        pbase = base if variant == "default" else C.mix(base, C.tag(variant))
+        for start in range(0, n_phase, CHUNK):
+            seeds = [C.mix(pbase, r) for r in range(start, min(n_phase, start + CHUNK))]
+            res = fanout(vbin, [["exec", "--seed", str(s)] for s in seeds], "runs")
+            parsed = []
+            keys = set()
+            for (i, code, lines) in res:
+                ops, viols, probes, err = parse_run(lines)
+                if code != 0:
+                    # the runner died (abort, signal) in the middle of a history; panics are caught per operation, so this
+                    # is memory corruption or an abort. It is judged below: a violation only if every operation of the
+                    # history survives alone in a fresh process and the crash reproduces.
+                    crashed.append((variant, seeds[i], code, lines[-15:]))
+                    continue
+                parsed.append((seeds[i], ops, viols, probes))
+                for o in ops:
+                    keys.add(o[5])
+            refs.ensure(keys)
+            for (rs, ops, viols, probes) in parsed:
+                evaluations += 1
+                ops_total += len(ops)
+                for k, v in probes.items():
+                    totals[k] = totals.get(k, 0) + v
+                for (oid, oh, ok, prefix, nt, key, _sem) in ops:
+                    if nt:
+                        distinct.add(hash((variant, prefix, key)))
+                    if refs.map[key] != oh:
+                        f = failing.setdefault((variant, "history-dependent-result", key), [rs, 0])
+                        f[1] += 1
+                for v in viols:
+                    subj = v["detail"].get("type", v["detail"].get("key", ""))
+                    f = failing.setdefault((variant, v["class"], subj), [rs, 0])
                     f[1] += 1
-            for v in viols:
-                subj = v["detail"].get("type", v["detail"].get("key", ""))
-                f = failing.setdefault((v["class"], subj), [rs, 0])
-                f[1] += 1
-        if start == 0:
-            for (rs, ops, viols, probes) in parsed[:2]:
-                sc = json.loads(subprocess.run([binary, "gen", "--seed", str(rs)], stdout=subprocess.PIPE, env={}).stdout)
-                samples.append({"run_seed": rs, "threads": sc["threads"], "heap_pre": sc["heap_pre"], "history": sc["ops"]})
-    for (rs, code, tail) in crashed[:3]:
-        sc = json.loads(subprocess.run([binary, "gen", "--seed", str(rs)], stdout=subprocess.PIPE, env={}).stdout)
+            if start == 0 and variant == "default":
+                for (rs, ops, viols, probes) in parsed[:2]:
+                    sc = json.loads(subprocess.run([vbin, "gen", "--seed", str(rs)], stdout=subprocess.PIPE, env={}).stdout)
+                    samples.append({"run_seed": rs, "threads": sc["threads"], "heap_pre": sc["heap_pre"], "history": sc["ops"]})
+    for (variant, rs, code, tail) in crashed[:3]:
+        vbin, refs = env_of[variant]
+        sc = json.loads(subprocess.run([vbin, "gen", "--seed", str(rs)], stdout=subprocess.PIPE, env={}).stdout)
         refs.ensure(set(scenario_keys(sc)))
-        rc1, _, err1 = run_scenario(binary, sc)
-        rc2, _, err2 = run_scenario(binary, sc)
+        rc1, _, err1 = run_scenario(vbin, sc)
+        rc2, _, err2 = run_scenario(vbin, sc)
         if rc1 == 0 or rc2 == 0:
             raise C.HarnessError("runner died once (exit %d) for run seed %d but not when repeated: not deterministic\n%s" % (code, rs, "\n".join(tail)))
-        failing.setdefault(("runner-crash", ""), [rs, 0])[1] += 1
-    # group failures by class + rule (first two fields of the key / the type), minimise one per group
+        failing.setdefault((variant, "runner-crash", ""), [rs, 0])[1] += 1
+    # group failures by (variant, class); a known finding would be matched by class + rule
+    known = C.known_for(PROP)
     groups = {}
-    for (cls, subj), (rs, cnt) in sorted(failing.items()):
+    for (variant, cls, subj), (rs, cnt) in sorted(failing.items()):
         short = "|".join(subj.split("|")[:2]) if "|" in subj else subj
-        gkey = (cls, short if any(k["match"].get("class") == cls and k["match"].get("subject") == short for k in C.known_for(PROP)) else "*")
+        gkey = (variant, cls, short if any(k["match"].get("class") == cls and k["match"].get("subject") == short for k in known) else "*")
         g = groups.setdefault(gkey, {"count": 0, "first": (rs, cls, subj), "subjects": []})
         g["count"] += cnt
         if short not in g["subjects"]:
             g["subjects"].append(short)
     new_violations = []
-    known = C.known_for(PROP)
     known_hits = []
     MAX_REPORT = 12
     for gkey, g in list(groups.items())[:MAX_REPORT]:
+        variant = gkey[0]
+        vbin, refs = env_of[variant]
         rs, cls, subj = g["first"]
-        sc = json.loads(subprocess.run([binary, "gen", "--seed", str(rs)], stdout=subprocess.PIPE, env={}).stdout)
-        small = minimise(binary, refs, sc, cls, subj)
-        found = [f for f in failure_classes(binary, refs, small) if f[0] == cls and f[1] == subj]
+        sc = json.loads(subprocess.run([vbin, "gen", "--seed", str(rs)], stdout=subprocess.PIPE, env={}).stdout)
+        small = minimise(vbin, refs, sc, cls, subj)
+        found = [f for f in failure_classes(vbin, refs, small) if f[0] == cls and f[1] == subj]
         if not found:
             raise C.HarnessError("violation %s / %s from run seed %d did not reproduce in a fresh process" % (cls, subj, rs))
-        name = C.safe_name("%s-seed%d-%s-%s" % (tier, seed, cls, gkey[1].replace("*", "all"))) + ".json"
+        name = C.safe_name("%s-seed%d-%s-%s-%s" % (tier, seed, variant, cls, gkey[2].replace("*", "all"))) + ".json"
         path = C.replay_path(PROP, name)
-        doc = {"property": PROP, "class": cls, "subject": subj, "group": list(gkey), "count": g["count"], "seed": seed, "run_seed": rs, "tier": tier,
+        doc = {"property": PROP, "class": cls, "subject": subj, "variant": variant, "group": [cls, gkey[2]], "count": g["count"], "seed": seed, "run_seed": rs, "tier": tier,
                "subjects": g["subjects"][:40], "scenario": small, "original_length": len(sc["ops"]), "detail": found[0][2],
                "reference": ({"key": subj, "observation_digest_alone_in_fresh_process": refs.map.get(subj)} if cls == "history-dependent-result" else None),
                "replay_cmd": "./check replay " + path}
         json.dump(doc, open(path, "w"), indent=1, ensure_ascii=False)
-        k = next((k for k in known if k["match"].get("class") == cls and k["match"].get("subject", gkey[1]) == gkey[1]), None)
+        k = next((k for k in known if k["match"].get("class") == cls and k["match"].get("subject", gkey[2]) == gkey[2]), None)
         if k:
             known_hits.append((k, doc, path))
         else:
@@ -308,7 +323,7 @@ def run(tier, seed):
                 continue
             seen.add(cls)
             path = C.replay_path(PROP, C.safe_name("%s-seed%d-%s" % (tier, seed, cls)) + ".json")
-            doc = {"property": PROP, "class": cls, "subject": "miri", "kind": "miri", "miri_seed": ms, "scenario_number": sc, "message": msg,
+            doc = {"property": PROP, "class": cls, "subject": "miri", "kind": "miri", "miri_seed": ms, "scenario_number": sc, "message": msg, "variant": "default",
                    "count": sum(1 for f in mfails if f[0] == cls), "subjects": ["sim/parsesim-miri scenario %d" % sc], "scenario": {"ops": []}, "original_length": 0,
                    "group": [cls, "miri"], "replay_cmd": "./check replay " + path}
             json.dump(doc, open(path, "w"), indent=1)
@@ -317,7 +332,8 @@ def run(tier, seed):
         C.say("KNOWN-FINDING: property=%s %s [class=%s subject=%s]" % (PROP, k["what"], doc["class"], doc["group"][1]))
     for doc, path in new_violations:
         C.say("VIOLATION property=%s replay=%s" % (PROP, path))
-        C.say("  class=%s occurrences=%d minimised history: %d of %d operations; affected: %s" % (doc["class"], doc["count"], len(doc["scenario"]["ops"]), doc["original_length"], ", ".join(doc["subjects"][:12])))
+        C.say("  class=%s variant=%s occurrences=%d minimised history: %d of %d operations; affected: %s" % (
+            doc["class"], doc["variant"], doc["count"], len(doc["scenario"]["ops"]), doc["original_length"], ", ".join(doc["subjects"][:12])))
     if len(groups) > MAX_REPORT:
         C.say("  (%d further violation groups not minimised)" % (len(groups) - MAX_REPORT))
     wall = t.s()
@@ -326,14 +342,15 @@ def run(tier, seed):
         "distinct_nontrivial": len(distinct),
         "rule": ("one evaluation = one simulated run = one fresh process executing a seeded history of 4-16 operations (new_input / drop_input / parse via "
                  "try_parse|try_parse_partial|try_check|try_check_partial on &str|&String|Position|Span / reparse / clone / drop_result) on 1-3 baton-scheduled OS threads "
-                 "against the derive-generated parsers of corpus/*.pest; distinct_nontrivial = number of distinct (digest of the history prefix, operation) pairs whose "
-                 "operation was preceded in its run by an operation that used the stack grammar, failed, or freed an input object"),
+                 "against the derive-generated parsers of the corpus (corpus/index.txt); distinct_nontrivial = number of distinct (variant, digest of the history prefix, operation) "
+                 "tuples whose operation was preceded in its run by an operation that used the stack grammar, failed, or freed an input object"),
         "samples": samples,
         "operations_observed": ops_total,
-        "reference_processes": refs.processes,
+        "runs_per_variant": {v: n for (v, _, _, n) in phases},
+        "reference_processes": sum(r.processes for (_, _, r, _) in phases),
+        "distinct_operations": sum(len(r.map) for (_, _, r, _) in phases),
         "miri_runs": miri_runs,
         "miri_note": "thorough tier only: 3 threads x 4 operations on one shared and three private input objects under Miri's seeded preemptive scheduler (-Zmiri-preemption-rate=0.1), release profile so the unchecked slicing paths run under the UB / data-race detector",
-        "distinct_operations": len(refs.map),
         "probes": totals,
         "runs_per_hour": int(evaluations / max(wall, 1e-9) * 3600),
         "simulated_time": "none: no component reads a clock; histories are ordered by operation index",
@@ -365,7 +382,15 @@ def replay(path):
             return 1
         C.say("NOT-REPRODUCED %s" % doc["class"])
         return 0
-    binary = C.require_build("parsesim")
+    variant = doc.get("variant", "default")
+    if variant == "default":
+        binary = C.require_build("parsesim")
+    else:
+        from . import c20
+        bins, failed = c20.build_variants([variant])
+        if failed:
+            raise C.HarnessError("variant %s does not build" % variant)
+        binary = bins[variant]
     refs = Refs(binary)
     found = failure_classes(binary, refs, doc["scenario"])
     hit = [f for f in found if f[0] == doc["class"] and f[1] == doc["subject"]]
